@@ -207,6 +207,39 @@ SCENARIOS = [
 ]
 
 
+def callback_check() -> Optional[str]:
+    """The `callback=` form of subscribe() (a background thread hands every message to the callback): a callback that RAISES
+    has received its message -- it is not delivered again, and what was published after it is delivered in order."""
+    import semantiva.execution.transport.in_memory as im
+    import time as _time
+
+    tr = im.InMemorySemantivaTransport()
+    for k in range(4):
+        tr.publish("cb", data=f"m{k}", context=None)
+    got_cb: List[str] = []
+
+    def cb(msg):
+        got_cb.append(msg.data)
+        if len(got_cb) == 2:
+            raise RuntimeError("handler failed")
+    old_hook = threading.excepthook
+    threading.excepthook = lambda args: None          # the failing handler's traceback is not the point
+    try:
+        tr.subscribe("cb", callback=cb)
+        deadline = _time.time() + 5.0
+        while _time.time() < deadline and threading.active_count() > 1 and len(got_cb) < 2:
+            _time.sleep(0.005)
+        _time.sleep(0.05)
+    finally:
+        threading.excepthook = old_hook
+    rest = [m.data for m in tr.subscribe("cb")]
+    everything = got_cb + rest
+    if sorted(everything) != ["m0", "m1", "m2", "m3"] or rest != sorted(rest):
+        return (f"callback subscription whose handler raises at its second message: the handler received {got_cb}, a later subscriber then received {rest} "
+                f"(published once each, in order: m0 m1 m2 m3)")
+    return None
+
+
 def scale_check() -> Optional[str]:
     """SCALE: backlogs far beyond anything a schedule enumeration reaches -- one channel holding 100 000 undelivered
     messages, and 400 channels of 3 -- are drained completely and in publication order (plain threads, no scheduler)."""
@@ -301,6 +334,10 @@ def check(tier: str) -> int:
         if h["py"]:
             run.violation(f"history:{scenario_key(h['scn'])}", f"schedule {h['sched']}: {h['py']}",
                           {"scenario": h["scn"], "sched": list(h["sched"])})
+    bad_cb = callback_check()
+    run.evaluations += 1
+    if bad_cb:
+        run.violation("callback-subscription:handler-raises", bad_cb, {"callback": True})
     bad_scale = scale_check()
     run.evaluations += 1
     if bad_scale:
